@@ -452,6 +452,7 @@ ReqExcludeFrame(x) == (~x.o.dryRun /\ x.o.exclude.on) => ExclTouched(x) = {}
 ReqSelectionFrame(x) == (ProjLevel(x.o) /\ x.o.selection.on) =>
   \A j \in ((DOMAIN x.src.jobs) \cup (DOMAIN x.dst.jobs) \cup (DOMAIN x.post.jobs)) \ x.o.selection.ids :
      (j \in DOMAIN x.post.jobs) = (j \in DOMAIN x.dst.jobs) /\ JobOf(x.post, j) = JobOf(x.dst, j)
+\* (for executions that end in an error see R-parallel-abort below: only "parallel fails iff sequential fails" is judged)
 ReqOrderConfluent(x) == x.o.parallel # "no" =>
   /\ (x.res = "ok") = (x.seqRes = "ok")
   /\ x.res = "ok" => NoTimeProj(x.post) = NoTimeProj(x.seqPost)
@@ -471,7 +472,15 @@ ReqVal(n, x) == CASE n = "CliExit" -> ReqCliExit(x) [] n = "CliNeverSilent" -> R
                   [] n = "DocRollbackExact" -> ReqDocRollbackExact(x) [] n = "DryRunFrame" -> ReqDryRunFrame(x)
                   [] n = "DeepByContent" -> ReqDeepByContent(x) [] n = "ExcludeFrame" -> ReqExcludeFrame(x)
                   [] n = "SelectionFrame" -> ReqSelectionFrame(x) [] n = "OrderConfluent" -> ReqOrderConfluent(x)
-Violated(x) == {n \in ReqNames : ~ReqVal(n, x)}
+\* R-parallel-abort: a project-level sync with parallel # False that ENDS IN AN ERROR (exception / exit status 1) has a TIMING-DEPENDENT
+\* post-state: the other pool workers are somewhere in the middle of their jobs when the error surfaces (and a command line process
+\* kills them on exit: half-copied files, a left-over roll-back copy '...json~').  For such an execution only what does not depend on
+\* timing is judged - the error is reported / the exit status, the source is untouched, jobs outside the selection are untouched, and
+\* parallel fails exactly when sequential fails - and the per-file frame, strategy and document requirements are skipped (they are judged
+\* on the executions that return and on the sequential ones).  The harness counts these executions ("abort" in its statistics).
+Abort(x) == ProjLevel(x.o) /\ x.o.parallel # "no" /\ x.res # "ok"
+TimingFree == {"SrcUntouched", "SelectionFrame", "NothingElse", "OrderConfluent", "CliExit"}
+Violated(x) == {n \in (IF Abort(x) THEN ReqNames \cap TimingFree ELSE ReqNames) : ~ReqVal(n, x)}
 
 \* what exactly is wrong, as short tags: all manifestations of one defect share a tag, different defects get different ones
 PFiles(P) == UNION {{<<j, f>> : f \in AllFiles(P.jobs[j].dir, <<>>)} : j \in DOMAIN P.jobs}
@@ -881,7 +890,7 @@ Export ==
                pred |-> [res |-> e.res, viol |-> e.viol, excused |-> e.excused, tags |-> e.tags], feat |-> e.feat]])
      ELSE IF IsFileMode
      THEN ndJsonSerialize(IOEnv.SYNC_OUT, [i \in 1..NC |-> LET e == EvalRec(i) IN
-              [id |-> RecsIn[i].id, why |-> e.why, viol |-> e.viol, tags |-> e.tags,
+              [id |-> RecsIn[i].id, why |-> e.why, viol |-> e.viol, tags |-> e.tags, abort |-> Abort(RecX(i)),
                exp |-> IF e.why = "" THEN [res |-> "", fn |-> "", keys |-> {}, dst |-> NoProj]
                        ELSE LET R == Run(RecX(i)) IN [res |-> ResName(R.res), fn |-> R.fn, keys |-> R.keys, dst |-> R.dst]]])
      ELSE TRUE
